@@ -1022,7 +1022,8 @@ class RTCPeerConnection(AsyncIOEventEmitter):
             slaveMids = bundle.items[1:]
             for transceiver in self.__transceivers:
                 if transceiver.mid in slaveMids and not transceiver._bundled:
-                    oldTransports.add(transceiver.receiver.transport)
+                    if transceiver.receiver.transport != primaryTransport:
+                        oldTransports.add(transceiver.receiver.transport)
                     transceiver.receiver.setTransport(primaryTransport)
                     transceiver.sender.setTransport(primaryTransport)
                     transceiver._bundled = True
@@ -1031,7 +1032,8 @@ class RTCPeerConnection(AsyncIOEventEmitter):
                 and self.__sctp.mid in slaveMids
                 and not self.__sctp._bundled
             ):
-                oldTransports.add(self.__sctp.transport)
+                if self.__sctp.transport != primaryTransport:
+                    oldTransports.add(self.__sctp.transport)
                 self.__sctp.setTransport(primaryTransport)
                 self.__sctp._bundled = True
 
